@@ -250,6 +250,21 @@ func runC13(c *core.Ctx) {
 			return
 		}
 		c.Cover("stage", name)
+		// %+v of the decoded error shows every branch: printed directly when the outermost
+		// layer is a library type (the opaque stand-ins included), through Formattable otherwise
+		if p := core.Try(func() {
+			var subj interface{} = errors.Formattable(d)
+			if tn := fmt.Sprintf("%T", d); strings.HasPrefix(tn, "*errbase.opaque") || model.Display(t)[0].IsLib() {
+				subj = d
+			}
+			pv := fmt.Sprintf("%+v", subj)
+			c.Count("decoded-verbose-renderings", 1)
+			if n, w := len(entryRe.FindAllString(pv, -1)), len(obs.Nodes(d)); n < w {
+				c.Violate("plusv-entries@"+name, "%+v of the decoded error has fewer entries than visible layers (a branch is missing)", fmt.Sprintf("%s\n%d entries, %d layers\n%s", t, n, w, trimS(pv, 2000)))
+			}
+		}); p != nil {
+			c.Violate("panic/%+v@"+name, "%+v of the decoded error panicked", fmt.Sprintf("%s\n%v", t, p))
+		}
 		sd := obs.ShapeOf(d)
 		if !textsToo {
 			eraseTexts(&sd)
